@@ -7,6 +7,8 @@ the number of steps the runner takes are checked by Lean against `Hive.Cycle` (`
 `runnerSteps`, `runnerStep`)."""
 from __future__ import annotations
 
+from . import framework as fw  # noqa: E402
+
 import logging
 import random
 from typing import Any, Dict, List, Tuple
@@ -194,5 +196,5 @@ def worker(args) -> Dict[str, Any]:
         elif o.get("mon"):
             findings.append({"id": r["id"], "kind": "mon", "text": o["mon"][:8], "record": rec})
     s = recs[0]
-    return {"n": len(recs), "steps": steps, "rows": events, "findings": findings[:20], "n_findings": len(findings), "shapes": sorted(shapes, key=str),
+    return {"n": len(recs), "steps": steps, "rows": events, "findings": fw.pick(findings, 20), "n_findings": len(findings), "shapes": sorted(shapes, key=str),
             "sample": {"meta": s["meta"], "clock": s["clock"], "singleSteps": s["singleSteps"], "runnerFinal": s["runnerFinal"]}}
